@@ -33,7 +33,7 @@ func c07(ctx *Ctx) {
 }
 
 func c07Cases(level int) []SCase {
-	lims := []lim{{nil, nil}, {1, nil}, {nil, 2}, {2, 2}}
+	lims := []lim{{nil, nil}, {1, nil}, {nil, 2}, {2, 2}, {nil, 1}}
 	if level >= 1 {
 		lims = append(lims, lim{1, 2}, lim{nil, 0}, lim{3, nil})
 	}
